@@ -131,4 +131,3 @@ func verifRunWriter(o *verifObject) {
 	fin := o.writer(buffer.NewCASBufferFromReader(o.digest, o.src, buffer.UserProvided))
 	o.off, o.err = fin()
 }
-
